@@ -230,6 +230,9 @@ def c15(run):
 # ======================================================================================================
 # maps, bitmaps, tilesets, PRT
 
+MAP_INV = ("ValueAcceptable", "TileCountIsProduct", "EncodeLength", "NormalFormIdempotent", "TrimLaws", "ProbeBijective", "Export")
+
+
 def _map_edit(run, own):
     g = vlib.generate("MapEdit", {"Depth": 3 if run.thorough else 2}, invariants=("Export",), properties=("CellFrame", "LavaFrame", "VerFrame", "TrimFrame"), workers=8)
     run.add_model(g)
@@ -241,20 +244,20 @@ def _map_edit(run, own):
 
 def c06(run):
     own = lambda m: site_of(m).startswith(("map_roundtrip", "map_edits", "scenario")) and m["kind"] != "getter"
-    run.scen("MC_Map", {"Tier": '"%s"' % run.tier, "Seed": vlib.SEED % 300, "NRand": 1500 if run.thorough else 250}, own=own)
+    run.scen("MC_Map", {"Tier": '"%s"' % run.tier, "Seed": vlib.SEED % 300, "NRand": 1500 if run.thorough else 250}, invariants=MAP_INV, workers=8, own=own)
     _map_edit(run, own)
 
 
 def c16(run):
     own = lambda m: site_of(m).startswith(("map_probe", "map_edits/cell", "map_edits/lava", "scenario"))
-    run.scen("MC_Map", {"Tier": '"%s"' % run.tier, "Seed": 1, "NRand": 0}, own=own)
+    run.scen("MC_Map", {"Tier": '"%s"' % run.tier, "Seed": 1, "NRand": 0}, invariants=MAP_INV, workers=8, own=own)
     _map_edit(run, own)
 
 
 def c07(run):
     run.scen("MC_MapFault", {"Seed": vlib.SEED % 300, "NRand": 2000 if run.thorough else 400}, small_heap=True, max_crashes=200)
     # a saved game yields the same fields as a map holding the same embedded portion (specification: MapFile!SavedGame)
-    run.scen("MC_Map", {"Tier": '"%s"' % run.tier, "Seed": vlib.SEED % 300, "NRand": 800 if run.thorough else 160}, own=by_prefix("save_equiv", "scenario"), name="MC_Map (saved game = map)")
+    run.scen("MC_Map", {"Tier": '"%s"' % run.tier, "Seed": vlib.SEED % 300, "NRand": 800 if run.thorough else 160}, invariants=MAP_INV, workers=8, own=by_prefix("save_equiv", "scenario"), name="MC_Map (saved game = map)")
 
 
 BMP_INV = ("ValueIsValid", "FlipTwiceIsIdentity", "FlipReversesRows", "CanonIsCanonical", "EncodedLength", "TilesetLaws", "Export")
